@@ -41,7 +41,9 @@ Definition run10 (f : forest) : sx :=
   let cs := flat_map (fun oc => match oc with Some c => [c] | None => [] end) ocs in
   L [ L (map (fun oc => match oc with None => A (-1)%Z | Some c => obs_plain c end) ocs);
       L (map (fun oc => match oc with None => A (-1)%Z | Some c => obs_pairs cs c end) ocs);
-      sx_nat (tree_height f) ].
+      sx_nat (tree_height f);
+      L [ sx_nodes (tr_children f); sx_on (tr_first_child f); sx_on (tr_last_child f); sx_nat (tr_count f);
+          sx_nat (tr_count_desc f false); sx_nat (tr_count_desc f true) ] ].
 
 (* ---- C15 ---- *)
 Definition obs_typed_ch (t : rt) (k : option text) : sx :=
